@@ -277,6 +277,9 @@ package dagsync
 //@   ghost failed := false
 //@   at call handle#1: after ghost failed := result1 != nil
 //@   ensures-local count("atomic.swap:pendingMsg") <= 1 && count("call:handle") <= 1
+// the pending slot is only ever emptied here (taking the newest announcement); nothing is put back, so
+// that the watcher's "spawn iff the slot was empty" rule keeps every later announcement acted on:
+//@   ensures-local count("atomic.cas:pendingMsg") == 0 && count("atomic.store:pendingMsg") == 0
 //@   ensures-local count("call:handle") == 1 && failed ==> count("send:inEvents") == 1 && count("call:sendSyncFinishedEvent") == 0 && count("call:updatePeerstore") == 0
 //@   ensures-local count("call:handle") == 1 && failed ==> evarg("send:inEvents", 1) == str(taken.Cid.str) && evarg("send:inEvents", 2) == str(h.peerID) && evarg("send:inEvents", 4) != 0
 //@   ensures-local count("call:handle") == 1 && failed && h.subscriber.receiver != nil ==> count("call:UncacheCid") == 1
@@ -295,6 +298,8 @@ package dagsync
 //@   requires wg(s.asyncWG) >= 1
 //@   mayblock
 //@   at call asyncSyncAdChain#1: assert held(hnd.asyncMutex)
+// the sync starts with a concurrency slot, or (context cancelled) only to be abandoned:
+//@   at call asyncSyncAdChain#1: assert s.syncSem != nil ==> count("send:syncSem") == 1 || count("recv:Done") == 1
 //@   ensures-local count("call:asyncSyncAdChain") == 1 && count("wg.done:asyncWG") == 1 && before("call:asyncSyncAdChain", "wg.done:asyncWG")
 //@   ensures-local before("lock:asyncMutex", "call:asyncSyncAdChain")
 //@   ensures-local count("send:syncSem") == count("recv:syncSem")
